@@ -11,6 +11,7 @@ import BV.C19.Stream
 import BV.C19.SessionLemmas
 import BV.C19.EllswiftLemmas
 import BV.C19.EllswiftExample
+import BV.C19.EllswiftRefine
 import BV.Generated.C19
 namespace BV.C19
 open BV.C19.Spec BV.Aead BV.Hex
@@ -284,6 +285,20 @@ theorem xswiftec_inv_correct {F : Type} [Field F] [DecidableEq F] {O : Ellswift.
     (hx : ∃ y, y * y = x ^ 3 + 7) (h : Ellswift.xswiftecInv O u x case = some t) :
     Ellswift.xswiftec O u t = some x :=
   Ellswift.Lemmas.xswiftec_inv_correct L u x t case hu h2 h3 hg hx h
+
+/-- The same for the EXECUTABLE model that is run against btcd (`natOps`: arithmetic on `Nat` modulo
+secp256k1's p with square-and-multiply inverse and square root): transported from the field
+`ZMod p` along the cast Nat → ZMod p, which is shown to be a homomorphism of all operations
+(incl. `powMod = exponentiation`), injective on reduced representatives. Two number-theoretic
+facts about secp256k1 remain HYPOTHESES (stated, not proved in Lean): `p` is prime
+(`[Fact (Nat.Prime Field.p)]`) and x³ + 7 has no root mod p (`hg`). -/
+theorem xswiftec_inv_correct_model [Fact (Nat.Prime Field.p)]
+    (hg : ∀ a : ZMod Field.p, a ^ 3 + 7 ≠ 0)
+    (u x t : Nat) (case : Nat) (hu : u < Field.p) (hu0 : u ≠ 0) (hx : x < Field.p)
+    (hcurve : ∃ y : Nat, y * y % Field.p = (x ^ 3 + 7) % Field.p)
+    (h : Ellswift.xswiftecInv Ellswift.natOps u x case = some t) :
+    Ellswift.xswiftec Ellswift.natOps u t = some x :=
+  Ellswift.Refine.xswiftec_inv_correct_nat hg u x t case hu hu0 hx hcurve h
 
 /-- the hypotheses of `xswiftec_inv_correct` are satisfiable (the field with 13 elements: c = 6,
 no root of x³ + 7), and the theorem applies to a concrete encoding there -/
